@@ -64,9 +64,9 @@ def f_validity(case):
         check(_is_product(c), 'random_pauli_map is not a product of single-qubit maps: %s' % c.rows(), 'pauli-map-not-product')
         nt = True
     elif kind == 'clifford_state':
-        _valid_state(be, sm.random_clifford_state(N, case['r']), 'random_clifford_state(%d,%d)' % (N, case['r'])); nt = N > 1
+        _valid_state(be, sm.random_clifford_state(N, B.int_form(case['r'], be)), 'random_clifford_state(%d,%d)' % (N, case['r'])); nt = N > 1
     elif kind == 'pauli_state':
-        _valid_state(be, sm.random_pauli_state(N, case['r']), 'random_pauli_state'); nt = True
+        _valid_state(be, sm.random_pauli_state(N, B.int_form(case['r'], be)), 'random_pauli_state'); nt = True
     elif kind == 'bit_state':
         _valid_state(be, sm.random_bit_state(N), 'random_bit_state'); nt = True
     else:
@@ -120,6 +120,8 @@ def stat_run(spec):
     u = Bk.mods()['u']
     rng.seed_all(seed, torch=(be == 'torch'))
     distinct = set()
+    # torchclifford takes device= as a string (default) or as a torch.device object
+    kw = {'device': B.torch_mods()['torch'].device('cpu')} if (be == 'torch' and spec.get('dev') == 'obj') else {}
     if what in ('clifford', 'clifford-signed', 'pauli-map'):
         signed = what != 'clifford'
         idx, ncell = _cells_clifford(N, signed)
@@ -127,7 +129,7 @@ def stat_run(spec):
         nonprod = 0
         prodmask = None
         for _ in range(n):
-            M = sm.random_clifford_map(N) if what != 'pauli-map' else sm.random_pauli_map(N)
+            M = sm.random_clifford_map(N, **kw) if what != 'pauli-map' else sm.random_pauli_map(N, **kw)
             l, k = Bk.read_list(M)
             i = idx.get(l.tobytes())
             if i is None or not (k % 2 == 0).all():
@@ -169,7 +171,7 @@ def stat_run(spec):
         counts = {}
         ent = 0
         for _ in range(n):
-            S = sm.random_clifford_state(N, r) if what == 'clifford-state' else sm.random_pauli_state(N, r)
+            S = sm.random_clifford_state(N, r, **kw) if what == 'clifford-state' else sm.random_pauli_state(N, r, **kw)
             l, k, rr = Bk.read_state(S)
             why = ref.tableau_invariant(l, k, rr)
             check(why is None and rr == r, 'random state invalid: %s r=%r' % (why, rr), 'invalid-state')
@@ -216,7 +218,7 @@ def stat_run(spec):
         tot = 0; ones = 0
         per = np.zeros(2 * N)
         for _ in range(n):
-            M = sm.random_clifford_map(N)
+            M = sm.random_clifford_map(N, **kw)
             k = B.read_p(Bk.num(M.ps))
             check((k % 2 == 0).all(), 'non-Hermitian sign', 'invalid-map')
             per += (k == 2)
@@ -288,7 +290,7 @@ def stat_run(spec):
         cm = Bk.mods()['c']
         idx, ncell = _cells_clifford(N, False)
         counts = np.zeros(ncell, dtype=np.int64)
-        g = cm.CliffordGate(*range(N))
+        g = cm.CliffordGate(*range(N), **kw)
         idn = ref.RefClifford.identity(N)
         nonprod = 0
         for _ in range(n):
@@ -308,14 +310,37 @@ def stat_run(spec):
     if what == 'resample':
         # a gate without maps draws a fresh map at every call: consecutive images of Z on one qubit are independent and uniform over +-X,+-Y,+-Z
         cm = Bk.mods()['c']
-        g = cm.CliffordGate(0)
+        g = cm.CliffordGate(0, **kw)
+        holder = g
+        hk = spec.get('holder', 'gate')
+        if hk != 'gate':
+            # the map-less gate sits in a layer / circuit on which compile() was attempted (it cannot be compiled: an exception is the documented
+            # outcome); the object is then used as before and must still draw a fresh map per call
+            if hk == 'layer':
+                holder = cm.CliffordLayer(g, **kw)
+                attempt = lambda: holder.compile(1)
+            elif hk == 'CliffordCircuit':
+                holder = cm.CliffordCircuit(1) if be == 'np' else cm.CliffordCircuit(**kw)
+                holder.take(g)
+                attempt = (lambda: holder.compile()) if be == 'np' else (lambda: holder.compile(1))
+            else:
+                holder = cm.Circuit(1)
+                holder.take(g)
+                attempt = lambda: holder.compile()
+            try:
+                attempt()
+                compiled = True
+            except Exception:
+                compiled = False
+            check(not compiled, 'compile() of a %s holding a map-less gate did not raise' % hk, 'random-compile-accepted')
         counts = np.zeros((6, 6))
         same = 0
 
         def draw():
             P = Bk.plist(*ref.parse_list(['+Z']))
-            g.forward(P)
+            holder.forward(P)
             l, k = Bk.read_list(P)
+            check(int(l[0, 0]) != 0, 'image of Z is the identity', 'invalid-map')
             return (int(l[0, 0]) - 1) * 2 + int(k[0]) // 2
         for _ in range(n):
             a = draw(); b = draw()
@@ -323,7 +348,8 @@ def stat_run(spec):
             same += a == b
         check(g.forward_map is None and g.backward_map is None, 'a random gate stored a map', 'random-gate-cached')
         stat, p = chi2_p(counts.ravel(), np.full(36, n / 36))
-        check(p >= P_REJECT, 'consecutive calls of a map-less gate: chi-square %.1f over 36 cells p=%.3g (equal pairs %d of %d)' % (stat, p, same, n), 'not-resampled')
+        check(p >= P_REJECT, 'consecutive calls of a map-less gate%s: chi-square %.1f over 36 cells p=%.3g (equal pairs %d of %d)' % (
+            '' if hk == 'gate' else ' inside a %s after a rejected compile()' % hk, stat, p, same, n), 'not-resampled' if hk == 'gate' else 'not-resampled-after-rejected-compile')
         return {'cells': 36, 'chi2': stat, 'p': p, 'distinct': set(range(36))}
     raise ValueError(what)
 
@@ -344,7 +370,7 @@ def make_stat_facet(name, be, specs_quick, specs_thorough):
             stats.evals += spec['n']
             for h in info['distinct']:
                 stats.nt_hashes.add((hash((spec['what'], spec['N'])) * 1000003 + h) & 0xFFFFFFFFFFFFFFFF)
-            lab = '%s/N=%d%s cells=%d' % (spec['what'], spec['N'], ',r=%d' % spec['r'] if 'r' in spec else '', info['cells'])
+            lab = '%s/N=%d%s%s cells=%d' % (spec['what'], spec['N'], ',r=%d' % spec['r'] if 'r' in spec else '', (',device-object' if spec.get('dev') == 'obj' else '') + (',' + spec['holder'] if 'holder' in spec else ''), info['cells'])
             stats.labels[lab] = spec['n']
             stats.notes.append('%s N=%d n=%d cells=%d chi2=%.1f p=%.3g' % (spec['what'], spec['N'], spec['n'], info['cells'], info['chi2'], info['p']))
             if len(stats.samples) < 2:
@@ -360,7 +386,8 @@ NPQ = [{'what': 'clifford', 'N': 1, 'n': 24000}, {'what': 'clifford-signed', 'N'
        {'what': 'pauli-map', 'N': 1, 'n': 12000}, {'what': 'pauli-map', 'N': 2, 'n': 40000}, {'what': 'pair', 'N': 1, 'n': 6000}, {'what': 'pair', 'N': 2, 'n': 24000},
        {'what': 'signs', 'N': 2, 'n': 10000}, {'what': 'bitstate', 'N': 3, 'n': 10000}, {'what': 'coin', 'N': 2, 'n': 20000}, {'what': 'coin-mixed', 'N': 3, 'n': 12000}, {'what': 'coin-mixed', 'N': 2, 'n': 8000}, {'what': 'resample', 'N': 1, 'n': 10000}, {'what': 'gate-forward', 'N': 2, 'n': 36000}, {'what': 'gate-backward', 'N': 2, 'n': 36000},
        {'what': 'clifford-state', 'N': 2, 'r': 1, 'n': 6000}, {'what': 'clifford-state', 'N': 2, 'r': 0, 'n': 9000}, {'what': 'clifford-state', 'N': 3, 'r': 1, 'n': 30000},
-       {'what': 'clifford-state', 'N': 3, 'r': 2, 'n': 10000}, {'what': 'pauli-state', 'N': 2, 'r': 1, 'n': 3000}, {'what': 'pauli-state', 'N': 3, 'r': 1, 'n': 8000}]
+       {'what': 'clifford-state', 'N': 3, 'r': 2, 'n': 10000}, {'what': 'pauli-state', 'N': 2, 'r': 1, 'n': 3000}, {'what': 'pauli-state', 'N': 3, 'r': 1, 'n': 8000},
+       {'what': 'resample', 'N': 1, 'n': 3000, 'holder': 'layer'}, {'what': 'resample', 'N': 1, 'n': 3000, 'holder': 'CliffordCircuit'}, {'what': 'resample', 'N': 1, 'n': 3000, 'holder': 'Circuit'}]
 NPT = [{'what': 'clifford', 'N': 1, 'n': 240000}, {'what': 'clifford-signed', 'N': 1, 'n': 240000}, {'what': 'clifford', 'N': 2, 'n': 1500000},
        {'what': 'clifford-signed', 'N': 2, 'n': 1200000}, {'what': 'clifford', 'N': 2, 'n': 1500000}, {'what': 'clifford-signed', 'N': 2, 'n': 1200000},
        {'what': 'pauli-map', 'N': 1, 'n': 120000}, {'what': 'pauli-map', 'N': 2, 'n': 600000}, {'what': 'pair', 'N': 1, 'n': 60000}, {'what': 'pair', 'N': 2, 'n': 240000},
@@ -368,12 +395,19 @@ NPT = [{'what': 'clifford', 'N': 1, 'n': 240000}, {'what': 'clifford-signed', 'N
        {'what': 'resample', 'N': 1, 'n': 200000}, {'what': 'gate-forward', 'N': 2, 'n': 720000}, {'what': 'gate-backward', 'N': 2, 'n': 720000},
        {'what': 'clifford-state', 'N': 2, 'r': 1, 'n': 120000}, {'what': 'clifford-state', 'N': 2, 'r': 0, 'n': 120000}, {'what': 'clifford-state', 'N': 3, 'r': 1, 'n': 400000},
        {'what': 'clifford-state', 'N': 3, 'r': 2, 'n': 200000}, {'what': 'clifford-state', 'N': 3, 'r': 0, 'n': 400000}, {'what': 'clifford-state', 'N': 4, 'r': 3, 'n': 200000},
-       {'what': 'pauli-state', 'N': 2, 'r': 1, 'n': 60000}, {'what': 'pauli-state', 'N': 3, 'r': 1, 'n': 100000}, {'what': 'pauli-state', 'N': 3, 'r': 0, 'n': 100000}]
+       {'what': 'pauli-state', 'N': 2, 'r': 1, 'n': 60000}, {'what': 'pauli-state', 'N': 3, 'r': 1, 'n': 100000}, {'what': 'pauli-state', 'N': 3, 'r': 0, 'n': 100000},
+       {'what': 'resample', 'N': 1, 'n': 60000, 'holder': 'layer'}, {'what': 'resample', 'N': 1, 'n': 60000, 'holder': 'CliffordCircuit'}, {'what': 'resample', 'N': 1, 'n': 60000, 'holder': 'Circuit'}]
 TQ = [{'what': 'gate-backward', 'N': 2, 'n': 14400}, {'what': 'clifford', 'N': 1, 'n': 6000}, {'what': 'clifford', 'N': 2, 'n': 14400}, {'what': 'pauli-map', 'N': 2, 'n': 40000}, {'what': 'pair', 'N': 2, 'n': 6000},
-      {'what': 'clifford-state', 'N': 2, 'r': 1, 'n': 3000}]
+      {'what': 'clifford-state', 'N': 2, 'r': 1, 'n': 3000},
+      {'what': 'clifford-signed', 'N': 1, 'n': 6000, 'dev': 'obj'}, {'what': 'signs', 'N': 2, 'n': 3000, 'dev': 'obj'}, {'what': 'resample', 'N': 1, 'n': 3000, 'dev': 'obj'},
+      {'what': 'pauli-map', 'N': 1, 'n': 6000, 'dev': 'obj'}, {'what': 'clifford-state', 'N': 2, 'r': 1, 'n': 3000, 'dev': 'obj'}, {'what': 'gate-forward', 'N': 1, 'n': 3000, 'dev': 'obj'},
+      {'what': 'resample', 'N': 1, 'n': 2000, 'holder': 'layer'}, {'what': 'resample', 'N': 1, 'n': 2000, 'holder': 'CliffordCircuit'}]
 TT = [{'what': 'clifford', 'N': 1, 'n': 60000}, {'what': 'clifford', 'N': 2, 'n': 200000}, {'what': 'clifford-signed', 'N': 1, 'n': 60000},
       {'what': 'pauli-map', 'N': 2, 'n': 120000}, {'what': 'pair', 'N': 2, 'n': 60000}, {'what': 'signs', 'N': 2, 'n': 40000},
-      {'what': 'clifford-state', 'N': 2, 'r': 1, 'n': 30000}, {'what': 'clifford-state', 'N': 3, 'r': 1, 'n': 60000}, {'what': 'pauli-state', 'N': 2, 'r': 1, 'n': 20000}]
+      {'what': 'clifford-state', 'N': 2, 'r': 1, 'n': 30000}, {'what': 'clifford-state', 'N': 3, 'r': 1, 'n': 60000}, {'what': 'pauli-state', 'N': 2, 'r': 1, 'n': 20000},
+      {'what': 'clifford-signed', 'N': 1, 'n': 60000, 'dev': 'obj'}, {'what': 'clifford', 'N': 2, 'n': 100000, 'dev': 'obj'}, {'what': 'signs', 'N': 3, 'n': 30000, 'dev': 'obj'},
+      {'what': 'resample', 'N': 1, 'n': 40000, 'dev': 'obj'}, {'what': 'pauli-map', 'N': 2, 'n': 120000, 'dev': 'obj'}, {'what': 'clifford-state', 'N': 2, 'r': 1, 'n': 30000, 'dev': 'obj'},
+      {'what': 'gate-forward', 'N': 2, 'n': 100000, 'dev': 'obj'}, {'what': 'gate-backward', 'N': 2, 'n': 100000, 'dev': 'obj'}]
 
 NP_KINDS = ['clifford_map', 'pauli_map', 'clifford_state', 'pauli_state', 'bit_state', 'brickwall', 'onsite', 'global']
 T_KINDS = ['clifford_map', 'pauli_map', 'clifford_state', 'pauli_state', 'brickwall', 'onsite', 'global']
